@@ -27,7 +27,8 @@ Section Closure.
     c_append_lst : forall i, P (append_lst i);
     c_set_lst : forall l, P (set_lst l);
     c_assert_done : forall i, P (assert_done abort i);
-    c_catch : forall A ids (m h : M A), P m -> P h -> P (catch_exceeded abort ids m h) }.
+    c_catch : forall A ids (m h : M A), P m -> P h -> P (catch_exceeded abort ids m h);
+    c_problem : forall e, P (if abort then @fail unit e else emit (Wn e)) }.
 
   Hypothesis C : closed.
 
@@ -220,7 +221,8 @@ Section Closure.
     destruct sessions; [|apply P_rsp_finish].
     apply P_try_field; [apply P_dec_sized_array; intros p; apply P_dec_ty|apply (c_ret C)|]. intros area.
     destruct (is_param_enc _ _ area) as [e|]; [|apply (c_internal C)].
-    destruct (Bool.eqb e enc); [apply P_rsp_finish|apply (c_internal C)].
+    apply (c_bind C); [|intros _; apply P_rsp_finish].
+    destruct (Bool.eqb e enc); [apply (c_ret C)|apply (c_problem C)].
   Qed.
 
   Lemma P_dec_response pa cc enc : P (dec_response T abort pa cc enc).
